@@ -88,7 +88,7 @@ def run_pure_mode(ctx, tier, mode, rule, comparison, key_prefix="", vo_deps=("Mo
                         "mismatches": ["model does not compile: " + (o + e)[-800:]]}
     summ = os.path.join(ctx.work, "%s_%s.json" % (mode, tier))
     cases = os.path.join(ctx.work, "%s_cases_%s.v" % (mode, tier))
-    rc, out, err = sh([tool, mode, "-tier", tier, "-seed", str(ctx.seed), "-summary", summ, "-out", cases], timeout=3000)
+    rc, out, err = sh([tool, mode, "-tier", tier, "-seed", str(ctx.seed), "-summary", summ, "-out", cases], timeout=3000, cwd=ctx.work)
     if rc != 0:
         raise RuntimeError("purefh %s failed rc=%s\n%s\n%s" % (mode, rc, out[-2000:], err[-2000:]))
     s = json.load(open(summ))
@@ -274,7 +274,7 @@ def gossip_run(ctx, tier):
         if rc != 0:
             mism.append("model does not compile: " + (o + e)[-800:])
         summ, cases = os.path.join(cdir, "summary.json"), os.path.join(cdir, "gcases.v")
-        rc, out, err = sh([tool, "-tier", tier, "-seed", str(ctx.seed), "-summary", summ, "-out", cases], timeout=3000)
+        rc, out, err = sh([tool, "-tier", tier, "-seed", str(ctx.seed), "-summary", summ, "-out", cases], timeout=3000, cwd=ctx.work)
         if rc != 0:
             raise RuntimeError("gossiph failed rc=%s %s %s" % (rc, out[-1500:], err[-1500:]))
         s = json.load(open(summ))
@@ -335,7 +335,7 @@ def run_C15(ctx, tier):
         okx, xlog = (False, o + e) if rc != 0 else vlib.build_extraction()
     mism = []
     summ, cases = os.path.join(ctx.work, "rpc_%s.json" % tier), os.path.join(ctx.work, "rpc_cases_%s.txt" % tier)
-    rc, out, err = sh([tool, "-tier", tier, "-seed", str(ctx.seed), "-summary", summ, "-out", cases], timeout=3000)
+    rc, out, err = sh([tool, "-tier", tier, "-seed", str(ctx.seed), "-summary", summ, "-out", cases], timeout=3000, cwd=ctx.work)
     if rc != 0:
         raise RuntimeError("rpch failed rc=%s %s %s" % (rc, out[-1500:], err[-1500:]))
     s = json.load(open(summ))
@@ -382,7 +382,7 @@ def run_C16(ctx, tier):
     if rc != 0:
         mism.append("model does not compile: " + (o + e)[-800:])
     summ, cases = os.path.join(ctx.work, "notary_%s.json" % tier), os.path.join(ctx.work, "ncases_%s.v" % tier)
-    rc, out, err = sh([tool, "-tier", tier, "-seed", str(ctx.seed), "-summary", summ, "-out", cases], timeout=3000)
+    rc, out, err = sh([tool, "-tier", tier, "-seed", str(ctx.seed), "-summary", summ, "-out", cases], timeout=3000, cwd=ctx.work)
     if rc != 0:
         raise RuntimeError("notaryh failed rc=%s %s %s" % (rc, out[-1500:], err[-1500:]))
     s = json.load(open(summ))
@@ -426,7 +426,7 @@ def replay_C16(ctx, path):
 def run_C08(ctx, tier):
     tool = _tool("conch")
     summ = os.path.join(ctx.work, "wedge_%s.json" % tier)
-    rc, out, err = sh([tool, "wedge", "-tier", tier, "-seed", str(ctx.seed), "-summary", summ], timeout=3000)
+    rc, out, err = sh([tool, "wedge", "-tier", tier, "-seed", str(ctx.seed), "-summary", summ], timeout=3000, cwd=ctx.work)
     if rc != 0 or not os.path.exists(summ):
         raise RuntimeError("conch wedge failed rc=%s %s %s" % (rc, out[-1500:], err[-1500:]))
     s = json.load(open(summ))
